@@ -46,8 +46,8 @@ DREG = 10                          # the deny region (highest priority used)
 
 def plan(tier, seed):
     if tier == 'quick':
-        return [{'k': 'translate'}] * 8000 + [{'k': 'deny'}] * 12000 + [{'k': 'align'}] * 4000 + [{'k': 'revoke'}] * 4000
-    return [{'k': 'translate'}] * 200000 + [{'k': 'deny'}] * 300000 + [{'k': 'align'}] * 80000 + [{'k': 'revoke'}] * 100000
+        return [{'k': 'witness-pushw'}] + [{'k': 'translate'}] * 8000 + [{'k': 'deny'}] * 12000 + [{'k': 'align'}] * 4000 + [{'k': 'revoke'}] * 4000
+    return [{'k': 'witness-pushw'}] + [{'k': 'translate'}] * 200000 + [{'k': 'deny'}] * 300000 + [{'k': 'align'}] * 80000 + [{'k': 'revoke'}] * 100000
 
 
 # =================================================================== translate
@@ -613,11 +613,12 @@ def run_align(case):
     b, tap, st = run_oneshot(core, meta)
     viol.extend(b.violations)
     cls = tap.exec_cls or '?'
-    site = _strip(cls)
+    site = case['kind']          # the generated instruction kind (stable under class renames), not the opcode class
     mode = M.MODES[meta['mode']]
     if not viol:
         if tap.abort_rec is None:
-            viol.append({'oracle': 'mpu.align', 'site': site, 'cls': 'missing_alignment_fault', 'tick': 0,
+            a_now = (core['regs']['sys']['sctlr'] >> 1) & 1
+            viol.append({'oracle': 'mpu.align', 'site': site, 'cls': 'missing_alignment_fault' if a_now else 'missing_alignment_fault_A0', 'tick': 0,
                          'detail': '%s (%#x) at misaligned %#x (size %d, SCTLR.A=%d): no abort' % (cls, case['word'], case['first'], case['size'], (core['regs']['sys']['sctlr'] >> 1) & 1)})
         else:
             a = tap.abort_state
@@ -712,7 +713,24 @@ def run_revoke(case):
 
 # =================================================================== dispatch
 
+def witness_pushw_case():
+    """deterministic witness of the known finding: PUSH.W {r0-r3} with SP = DATA+0x403, SCTLR.A=0, U=1, ARMv7, Supervisor mode"""
+    rng = random.Random(0)
+    D = G.DATA + 0x400
+    regs = [0x11 * i for i in range(15)]
+    regs[13] = D + 3
+    mpu = [(0, 0, 0)] * 12
+    mpu[0] = (1 | 31 << 1, 0, 3 << 8)
+    core, meta = _one_shot_case(rng, 0xE92D000F, 1, 'svc', 0, regs, mpu, {}, arch=7)
+    core['regs']['sys']['sctlr'] = G.sctlr_value(m=0, a=0, u=1, te=0, v=0, br=1)
+    core['regs']['cpsr'] &= ~0x200
+    return {'scenario': 'align', 'cores': [core], 'meta': meta, 'word': 0xE92D000F, 'kind': 'push_w', 'first': D + 3 - 16, 'size': 4, 'rn': 13, 'wb': 1, 'write': True,
+            'events': [], 'max_ticks': 200}
+
+
 def gen(item, rng, tier):
+    if item['k'] == 'witness-pushw':
+        return witness_pushw_case()
     return {'translate': gen_translate, 'deny': gen_deny, 'align': gen_align, 'revoke': gen_revoke}[item['k']](rng)
 
 
